@@ -10,11 +10,13 @@ pub mod c08;
 pub mod c09;
 pub mod c10;
 pub mod c11;
+pub mod c12;
 pub mod c13;
 pub mod c14;
 pub mod c15;
 pub mod c17;
 pub mod c18;
+pub mod c19;
 pub mod c20;
 
 type RunFn = fn(&Report);
@@ -30,11 +32,13 @@ pub const CHECKS: &[(&str, &str, RunFn)] = &[
     ("C09", "exploration", c09::run),
     ("C10", "exploration", c10::run),
     ("C11", "exploration", c11::run),
+    ("C12", "fault_enumeration", c12::run),
     ("C13", "exploration", c13::run),
     ("C14", "exploration", c14::run),
     ("C15", "exploration", c15::run),
     ("C17", "exploration", c17::run),
     ("C18", "exploration", c18::run),
+    ("C19", "exploration", c19::run),
     ("C20", "exploration", c20::run),
 ];
 
